@@ -131,8 +131,11 @@ pub fn node_stream(seed: u64, histories: usize, cfg: Cfg) -> Sink {
     let tables = Arc::new(Tables::new(cfg.keys.max(8), cfg.peers.max(4)));
     for _h in 0..histories {
         let sdh = rng.chance(1, 2);
-        let mut ex = NodeExec::new(sdh, tables.clone());
-        sink.push(format!("n reset {}", sdh as u8), "ok".into(), "-".into());
+        // builder usage: the option alone, or together with a protocol prefix set before / after it
+        let variant = *rng.pick(&[b' ', b' ', b'a', b'b']);
+        let mut ex = NodeExec::with_variant(sdh, variant, tables.clone());
+        sink.count(match variant { b'a' => "node.builder.prefix-then-option", b'b' => "node.builder.option-then-prefix", _ => "node.builder.option-only" });
+        sink.push(format!("n reset {}{}", sdh as u8, if variant == b' ' { String::new() } else { (variant as char).to_string() }), "ok".into(), "-".into());
         let mut view = View { conns: BTreeMap::new(), next_conn: 1, queries: vec![], pending: BTreeMap::new(), handshake: BTreeMap::new() };
         let nops = cfg.ops / 2 + rng.below(cfg.ops);
         let mut i = 0;
